@@ -15,7 +15,7 @@ def main():
     sid, quals = sys.argv[1], sys.argv[2:]
     d = tempfile.mkdtemp(prefix='show_')
     try:
-        shutil.copytree('/repo/src', d + '/src')
+        shutil.copytree(os.environ.get('SEED_REPO', '/repo') + '/src', d + '/src')
         if sid != '-':
             pd = os.path.join(V, 'benign' if sid.startswith('benign') else 'seeded', sid, 'patch.diff')
             r = subprocess.run(['patch', '-p1', '-s', '-d', d, '-i', pd], capture_output=True, text=True)
